@@ -1,6 +1,7 @@
 #!/usr/bin/env python3
 """driver for the C20 structured-corruption tier: loads the case files named on stdin, one per
-line (`<name>\t<file type>\t<path>`), each under a wall-clock alarm and an address-space limit,
+line (`<name>\t<file type>\t<path>`), each under a CPU-time alarm (so that a busy machine does not
+turn into a time-out; a generous wall-clock alarm catches blocking) and an address-space limit,
 and prints `START <name>` before and `END <name>\t<outcome>` after each. If this process dies
 (segmentation fault, abort) the parent knows which case did it from the last START line."""
 import io
@@ -28,6 +29,7 @@ def on_alarm(*a):
 
 
 signal.signal(signal.SIGALRM, on_alarm)
+signal.signal(signal.SIGVTALRM, on_alarm)
 for line in sys.stdin:
     line = line.rstrip("\n")
     if not line:
@@ -35,7 +37,8 @@ for line in sys.stdin:
     name, ft, path = line.split("\t")
     print("START %s" % name, flush=True)
     data = open(path, "rb").read()
-    signal.setitimer(signal.ITIMER_REAL, limit_s)
+    signal.setitimer(signal.ITIMER_VIRTUAL, limit_s)
+    signal.setitimer(signal.ITIMER_REAL, limit_s * 12)
     try:
         try:
             r = trimesh.load(io.BytesIO(data), file_type=ft)
@@ -56,5 +59,6 @@ for line in sys.stdin:
         except BaseException as ex:  # noqa: BLE001
             outcome = "NON-ORDINARY %s" % type(ex).__name__
     finally:
+        signal.setitimer(signal.ITIMER_VIRTUAL, 0)
         signal.setitimer(signal.ITIMER_REAL, 0)
     print("END %s\t%s" % (name, outcome), flush=True)
